@@ -77,7 +77,9 @@ _ctx = {}
 def ctx(fam):
     if fam not in _ctx:
         text = FAMS[fam][0]
-        _ctx[fam] = {"rb": make_rb(text, "huawei"), "root": refdev.Level.root(refdev.parse_rules(text))}
+        from vt.common import make_hw, StubDevice
+        _ctx[fam] = {"rb": make_rb(text, "huawei"), "root": refdev.Level.root(refdev.parse_rules(text)),
+                     "dev": StubDevice(make_hw("huawei"))}
     return _ctx[fam]
 
 
@@ -320,7 +322,63 @@ def check_pair(fam, old, new):
     if got != level_multisets(want):
         return False, dict(base, lines=text, parsed={"/".join(k): v for k, v in got.items()},
                            want={"/".join(k): v for k, v in level_multisets(want).items()}), "pre-view-loses-information", True
+    ok, detail, kind, _nt = check_worker(fam, o0, n0)
+    if not ok:
+        return ok, detail, kind, True
     return True, None, None, bool(stripped)
+
+
+class _Res:
+    """what annet.gen.old_new hands to the diff worker for one device"""
+
+    def __init__(self, dev, old, new):
+        self.device, self._old, self._new = dev, old, new
+        self.old_files, self.old_json_fragment_files, self.filter_acl_rules = {}, {}, None
+
+    def get_old(self, safe):
+        return self._old
+
+    def get_new(self, safe):
+        return self._new
+
+    def get_acl_rules(self, safe):
+        return None
+
+    def get_new_files(self, safe):
+        return {}
+
+    def get_new_file_fragments(self, safe):
+        return {}
+
+
+class _Args:
+    acl_safe = False
+    config = "running"
+    clear = False
+
+
+def check_worker(fam, old, new):
+    """the device front end of `annet diff` (annet.diff.worker) shows exactly the entries make_diff reports"""
+    import copy
+    import annet.diff
+    import annet.rulebook
+    from annet.annlib import patching
+    c = ctx(fam)
+    base = {"family": fam, "old": tree_to_json(old), "new": tree_to_json(new)}
+    want = plain_diff(patching.strip_unchanged(patching.make_diff(copy.deepcopy(old), copy.deepcopy(new), c["rb"], [])))
+    saved = (annet.diff.old_new, annet.rulebook.get_rulebook)
+    annet.diff.old_new = lambda *a, **kw: iter([_Res(c["dev"], copy.deepcopy(old), copy.deepcopy(new))])
+    annet.rulebook.get_rulebook = lambda hw: c["rb"]
+    try:
+        got = annet.diff.worker("dev1", _Args(), None, None, None)
+    except Exception as e:  # noqa
+        return False, dict(base, error=repr(e)), "worker:exception:%s" % type(e).__name__, True
+    finally:
+        annet.diff.old_new, annet.rulebook.get_rulebook = saved
+    got = plain_diff(got) if got is not None else []
+    if got != want:
+        return False, dict(base, worker_shows=got, make_diff_reports=want), "worker-diff-differs-from-make_diff", True
+    return True, None, None, bool(want)
 
 
 def _same_order(a, b):
